@@ -151,6 +151,7 @@ def _subs(tier, prop):
             sp['devices'][0]['cycle'] = c0
             S.append(mk_sub(f'F8-budget-cut-and-raised-c0={c0}', sp, mons, zero=['cs'], pre=['t0 < t1']))
         S.append(mk_sub('F7-batches-into-batcher-slow-consumer', batches_into_batcher(), mons, zero=['cs', 'c0']))
+        S.append(mk_sub('F7-batches-of-2-into-batcher-3', batches_into_batcher((2, 2, 2), 3), mons, zero=['cs', 'c0']))
         S.append(mk_sub('F7-buffer-into-batcher-sizeNone', buffer_into_batcher(None), mons, zero=['c0', 'd1', 'cs'],
                         ranges={'b0': (0, 3), 'b1': (0, 3)}))
         S.append(mk_sub('F4-fanout-behind-group-path', GROUP_FANOUT, mons, zero=['cs']))
@@ -197,6 +198,12 @@ def _subs(tier, prop):
         S.append(mk_sub('F7-batches-into-batcher-slow-consumer', batches_into_batcher(), mons, zero=['cs', 'c0']))
         if not q:
             S.append(mk_sub('F7-batches-into-batcher-n3', batches_into_batcher((3, 3, 3)), mons, zero=['cs']))
+        bb = {'devices': [{'k': 'source', 'name': 'src', 'cycle': 0, 'parts': 6},
+                          {'k': 'batcher', 'name': 'bat', 'up': ['src'], 'size': 2},
+                          {'k': 'buffer', 'name': 'buf', 'up': ['bat'], 'delay': 0, 'cap': 3},
+                          {'k': 'proc', 'name': 'p1', 'up': ['buf'], 'cycle': 'c1'},
+                          {'k': 'sink', 'name': 'snk', 'up': ['p1'], 'cycle': 0}]}
+        S.append(mk_sub('F7-batch-refused-by-a-buffer-that-is-not-full', bb, mons))
         S.append(mk_sub('F4-nested-n2', NESTED, mons, zero=['cs']))
         S.append(mk_sub('F4-reentrant-n2', REENTRANT, mons, zero=['cs', 'c0']))
         S.append(mk_sub('F8-path-blocked-while-downstream-frees', with_ops(PATH_THEN_SLOW, [
@@ -220,6 +227,12 @@ def _subs(tier, prop):
                              {'k': 'handler', 'name': 'h', 'up': ['buf'], 'cycle': 'c1'},
                              {'k': 'sink', 'name': 'snk', 'up': ['h'], 'cycle': 0}]}
         S.append(mk_sub('F2-fan-in-two-producers-same-instant', fanin, mons))
+        two = {'devices': [{'k': 'source', 'name': 'src', 'cycle': 0, 'parts': 4, 'batches': [None, None, 3, None]},
+                           {'k': 'buffer', 'name': 'buf', 'up': ['src'], 'delay': 0, 'cap': 8},
+                           {'k': 'buffer', 'name': 'buf2', 'up': ['buf'], 'delay': 0, 'cap': 3},
+                           {'k': 'proc', 'name': 'p1', 'up': ['buf2'], 'cycle': 'c1'},
+                           {'k': 'sink', 'name': 'snk', 'up': ['p1'], 'cycle': 0}]}
+        S.append(mk_sub('F7-refused-batch-at-the-head-of-a-buffer', two, mons))
         S.append(mk_sub('F7-batch-backlog-cap5', batch_backlog_in_buffer(5, (2, 2, 2)), mons + ['census'], zero=['cs', 'c0']))
         S.append(mk_sub('F7-batch-backlog-cap4-mixed', batch_backlog_in_buffer(4, (3, None, 2)), mons + ['census'], zero=['cs']))
         for size in (None, 2):
@@ -300,8 +313,11 @@ def _subs(tier, prop):
             pre=['t0 <= t1']))
     elif prop == 'C01':
         # device tier of C01 (thorough only): the dispatch-order monitor rides on real multi-device models
+        mons = ['dispatch']
+        S.append(mk_sub('F5-two-procs-one-pool-split-run', dict(resources2(2), horizons=['a', 10 ** 7]), mons, zero=['cs', 'c0'],
+                        ranges={'a': (0, 3 * L.T)}))
+        S.append(mk_sub('F1-P-n2-split-run', dict(serial('P', 2), horizons=['a', 10 ** 7]), mons, zero=['cs'], ranges={'a': (0, 3 * L.T)}))
         if not q:
-            mons = ['dispatch']
             S.append(mk_sub('F1-PB-n2', serial('PB', 2, caps={2: 2}), mons, zero=['cs']))
             S.append(mk_sub('F2-fanout-n2', {'devices': [{'k': 'source', 'name': 'src', 'cycle': 'c0', 'parts': 2},
                                                           {'k': 'proc', 'name': 'p1', 'up': ['src'], 'cycle': 'c1'},
@@ -326,6 +342,7 @@ def _subs(tier, prop):
             shapes += [(''.join(ks), 3, {i + 1: cap for i, kk in enumerate(ks) if kk == 'B'})
                        for ks in [('H', 'P'), ('P', 'B'), ('B', 'P'), ('B', 'B'), ('P', 'P')] for cap in ([1, 2] if 'B' in ks else [1])]
             shapes += [('HPB', 2, {3: 1}), ('PBP', 2, {2: 1})]
+        S.append(mk_sub('F1-H-n2-all-zero-horizon-0', dict(serial('H', 2), horizon=0), mons, zero=['c0', 'c1', 'cs']))
         shapes = shapes + [('P', 0, {})]
         for kinds, n, caps in shapes:
             spec = serial(kinds, n, caps=caps)
@@ -491,6 +508,7 @@ def _subs(tier, prop):
                                 zero=['c0', 'cs'] if (q and size is None) else ['c0']))
         S.append(mk_sub('F7-batches-through-gate-refused', batches_through_gate(2), ['batch', 'routing'], zero=['cs', 'c0']))
         S.append(mk_sub('F7-empty-batch-while-unpacking', batches_into_batcher((3, 0, 2), 2), mons[:1] + ['census'], zero=['cs', 'c0']))
+        S.append(mk_sub('F7-batches-of-2-into-batcher-3', batches_into_batcher((2, 2, 2), 3), mons[:1] + ['census'], zero=['cs', 'c0']))
         S.append(mk_sub('F7-empty-batch-while-unpacking-single', batches_into_batcher((3, 0, 2), None), mons[:1] + ['census'], zero=['cs', 'c0']))
         S.append(mk_sub('F7-buffer-into-batcher-size2', buffer_into_batcher(2), mons, zero=['c0', 'd1'],
                         ranges={'b0': (0, 3), 'b1': (0, 3)}))
@@ -593,8 +611,9 @@ def jobs(tier, prop):
 
 
 def bounds_text(tier, prop):
-    if not _subs(tier, prop):
-        return 'device tier (dispatch-order monitor on multi-device models): thorough only'
+    if prop == 'C01':
+        return ('device tier (dispatch-order and run-contract monitor on real multi-device models): ' +
+                '; '.join(s['name'] for s in _subs(tier, prop)))
     extra = ''
     if tier == 'thorough' and prop in LINE_PROPS:
         extra = f' + {len(_cross_pool(prop))} models of the other device-level properties (prefixed x<id>:) run with this property\'s monitors'
@@ -625,7 +644,7 @@ REQUIRED = {
 
 def required_goals(tier, prop):
     if prop == 'C01':
-        return ['device_event_dispatched', 'device_events_tied'] if tier == 'thorough' else []
+        return ['device_event_dispatched', 'run_ended_with_events_pending'] + (['device_events_tied'] if tier == 'thorough' else [])
     return REQUIRED.get(prop, [])
 
 
